@@ -223,7 +223,7 @@ CLAIMS = {
 ADDED7 = {
     "C02": "the BF3 body contracts (dir_to_binary: offsets advance by the STORED length; to_binary; from_binary(layout(f))=f) are discharged under this property too; bounded family with the encrypted configuration first",
     "C04": "BEC2 fault enumeration (every header byte, prefixes, body bytes, suffixes, text prefixes; one block of each kind with every key selector, multi-block headers, a reader with one ECC key per selector); compared: session key, content, fields of every OPENED block (an unopened block is opaque: the header has no MAC)",
-    "C07": "the ECC block's key derivation (shared x as exactly 32 bytes) and the independent unwrap are obligations here too",
+    "C07": "Bec2File.__init__ / add_auth_block keep one block per kind (last wins, first-appearance order) and UnknownAuthBlock.unpack is a format error for every input (shared with C02, C03, C11); the ECC block's key derivation (shared x as exactly 32 bytes) and the independent unwrap are obligations here too",
     "C09": "decode chain of the ephemeral point: from_string hands the decoded coordinates unchanged to from_public_point, which validates against P-256 (callees stubbed, arguments recorded); crafted curve points written with a coordinate >= p",
     "C10": "set_config's framing (shared with C06/C11) and a bounded end-to-end family: the component split by an independent framing reader and decoded, for every way a component can end",
     "C11": "the identifier functions' contract (identifier or exactly their own Missing...NameError) discharged here too; anonymous configurations in the operation sequences",
